@@ -418,6 +418,8 @@ class Machine:
             body = fr.fn.promoted.get(int(pm.group(1)))
             if body is None: raise Inconclusive('promoted const not found: ' + s)
             return self.run_fn(body, [])
+        nc = MIR.NAMED_CONSTS.get(s.split('::')[-1])
+        if nc is not None and re.fullmatch(r'[\w:]+', s): return self.const(fr, nc)
         hook = self.aux.get('const_hook')
         if hook is not None:
             r = hook(self, s)
@@ -557,6 +559,22 @@ class Machine:
         if isinstance(a, ValSlice) and isinstance(b, ValSlice):
             if len(a.elems) != len(b.elems): return z3.BoolVal(False)
             return z3.And([self.val_eq(x, y) for x, y in zip(a.elems, b.elems)]) if a.elems else z3.BoolVal(True)
+        if isinstance(a, VecV) and isinstance(b, VecV):
+            al = a.len if not isinstance(a.len, int) else bv(a.len, 64); bl = b.len if not isinstance(b.len, int) else bv(b.len, 64)
+            cs = [al == bl]
+            for j in range(max(len(a.elems), len(b.elems))):
+                inb = z3.ULT(bv(j, 64), al)
+                if j < len(a.elems) and j < len(b.elems): cs.append(z3.Implies(inb, self.val_eq(a.elems[j], b.elems[j])))
+                else: cs.append(z3.Not(z3.And(inb, z3.ULT(bv(j, 64), bl))))
+            return z3.And(cs)
+        if isinstance(a, EnumV) and isinstance(b, EnumV):
+            ad = a.discr if not isinstance(a.discr, int) else bv(a.discr, 64); bd = b.discr if not isinstance(b.discr, int) else bv(b.discr, 64)
+            cs = [ad == bd]
+            for k, p in a.payloads.items():
+                if k in b.payloads: cs.append(z3.Implies(ad == bv(k, 64), self.val_eq(p, b.payloads[k])))
+                else: cs.append(ad != bv(k, 64))
+            return z3.And(cs)
+        if isinstance(a, Ref) and isinstance(b, Ref): return self.val_eq(self.load(a), self.load(b))
         raise Inconclusive('equality of %r and %r' % (a, b))
 
     def cast(self, fr, v, ty, kind, op):
